@@ -69,9 +69,14 @@ class Gen:
                 acts.append(['disall', dh, None])
             acts.append(['mk', dh, handle, assoc, self.fresh()])
             self.ctx_states[handle or f'gen{self._next_gen()}'] = dh
-        elif r < 0.8:
+        elif r < 0.8 - self.w.get('delstate', 0) * 0.1:
             h = self.rng.choice(mine)
             acts.append(['get', h, self.fresh(), self.rng.choice([None, None, True, False])])
+        elif r < 0.8:
+            h = self.rng.choice(mine)          # entity interface only: delete a context state
+            acts.append(['delstate', h])
+            self.ctx_states.pop(h)
+            iface = 'entity'
         else:
             acts.append(['disall', dh, self.rng.choice([None] + mine)])
             iface = 'classic'
@@ -176,7 +181,8 @@ class Gen:
 
     def history(self, nops):
         ops = []
-        choices = [k for k, w in self.w.items() for _ in range(w)]
+        choices = [k for k, w in self.w.items() if k in ('state', 'ctx', 'location', 'descr', 'reject', 'abort')
+                   for _ in range(w)]
         guard = 0
         while len(ops) < nops and guard < 10 * nops:
             guard += 1
@@ -402,3 +408,84 @@ def oracle_consumer(case, result):
         if (new | upd) != {str(x[0]) for x in c['descrs']['set']}:
             yield 'C01', n, (f'descriptor notifications name {sorted(new | upd)} but '
                              f'{sorted(str(x[0]) for x in c["descrs"]["set"])} changed')
+
+
+# ----------------------------------------------------------------------------- C06: delivery schedules
+def fault_schedule(rng, nops):
+    """per transaction step a list of delivery tokens (see harness/impl/mdib_impl.py)"""
+    sched = []
+    for _ in range(nops):
+        r = rng.random()
+        if r < 0.35:
+            toks = ['all']
+        elif r < 0.5:
+            toks = ['hold']
+        elif r < 0.6:
+            toks = ['drop']
+        elif r < 0.72:
+            toks = ['dup']
+        elif r < 0.84:
+            toks = ['rev']
+        else:
+            toks = ['newest']
+        if rng.random() < 0.3:
+            toks.append(['replay', rng.randrange(1000)])
+        if rng.random() < 0.1:
+            toks.insert(0, ['replay', rng.randrange(1000)])
+        sched.append(toks)
+    return sched
+
+
+def oracle_faults(case, result):
+    """C06 on an implementation trace with a fault-injecting transport; yields (property, step, why)."""
+    init = result['init']['prov']
+    published = {t: {} for t in ('descrs', 'states', 'cstates')}      # handle -> set of every value the provider ever held
+
+    def publish(snap_or_delta, is_delta):
+        for t in published:
+            items = snap_or_delta[t]['set'] if is_delta else snap_or_delta[t]
+            for x in items:
+                published[t].setdefault(str(x[0]), set()).add(repr(x))
+    publish(init, False)
+    ct = Tables(init)                      # the consumer starts as a mirror (checked by C01's oracle)
+    if result['init'].get('mirror0'):
+        yield 'C06', -1, 'after the initial load the consumer is not a mirror'
+    frozen = False
+    for n, (op, st) in enumerate(zip(case['ops'], result['trace'])):
+        publish(st['prov'], True)
+        c = st['cons']
+        if st['res'].startswith('Other'):
+            yield 'C06', n, 'unexpected exception: ' + st['res'][:200]
+        reloaded = op['k'] == 'reload' and st['res'] == 'ok'
+        if reloaded:
+            if st['mirror']:
+                yield 'C06', n, f'after reload_all the consumer is not a mirror of the provider: {st["mirror"][0]}'
+            if st.get('cmode') != 'initialized':
+                yield 'C06', n, f'after reload_all the consumer state is {st.get("cmode")}'
+            frozen = False
+            ct = Tables({'ver': c['ver'], 'descrs': [], 'states': [], 'cstates': []})
+            ct.apply(c)      # after a reload the tables are simply what the delta says relative to before
+            continue
+        if c['index_problems']:
+            yield 'C06', n, 'consumer lookups inconsistent: ' + c['index_problems'][0]
+        changed = any(c[t]['set'] or c[t]['del'] for t in ('descrs', 'states', 'cstates')) or c['ver'] != ct.ver
+        if frozen and changed:
+            yield 'C06', n, 'the consumer changed although SequenceId/InstanceId had changed and it was not reloaded'
+        if c['ver'] is not None and ct.ver is not None and c['ver'] < ct.ver:
+            yield 'C06', n, f'MdibVersion went back {ct.ver}->{c["ver"]}'
+        for t, pos in (('states', 2), ('cstates', 2), ('descrs', 3)):
+            for x in c[t]['set']:
+                h = str(x[0])
+                old = ct.t[t].get(h)
+                if old is not None and x[pos] < old[pos]:
+                    yield 'C06', n, f'{t[:-1]} {h}: version went back {old[pos]}->{x[pos]}'
+                if repr(x) not in published[t].get(h, ()):
+                    yield 'C06', n, f'{t[:-1]} {h}: the consumer holds {x}, which the provider never published'
+        ct.apply(c)
+        if st.get('cmode') == 'invalid':
+            frozen = True
+        # a delivered report with a foreign sequence / instance id must invalidate an initialised consumer
+        for r in st.get('delivered', []):
+            if r.get('seq') is not None and r.get('seq') != init['seq'] and st.get('cmode') == 'initialized' \
+                    and not reloaded and not case.get('_reloaded_before', False):
+                yield 'C06', n, 'a report with a different SequenceId was delivered but the consumer is still "initialized"'
